@@ -121,6 +121,14 @@ def finalize (p : Sha) : List UInt8 × Sha :=
 def hash (data : List UInt8) : List UInt8 :=
   (finalize (update init data)).1
 
+/-- `memcpy(a + off, src, |src|)` into the byte array `a` (documented behaviour of `Memory::copy`): a checked block write -
+a block that does not fit destroys the array (like `wr`), so that no theorem about the result can hold by accident -/
+def storeAt (a : List UInt8) (off : Nat) (src : List UInt8) : List UInt8 :=
+  if off + src.length ≤ a.length then a.take off ++ src ++ a.drop (off + src.length) else []
+
+/-- `memset(a + off, 0, n)` on the byte array `a` (documented behaviour of `Memory::zero`) -/
+def zeroAt (a : List UInt8) (off n : Nat) : List UInt8 := storeAt a off (List.replicate n 0)
+
 /-- `Sha256::hmac(key, keySize, message, messageSize, result)`; one hasher object is used for
 the key digest, the inner and the outer pass (it is reset by each `finalize`).  `blockSize`,
 `digestSize` and the two pad bytes are the generated constants of the header; `32`/`64` are the
